@@ -39,6 +39,26 @@ def clone(node):
             setattr(new, a, getattr(node, a))
     return new
 
+def clone_keep(node, keep):
+    """clone, but the sub-node `keep` is carried over by identity (so that it can be found and replaced in the copy)"""
+    if node is keep:
+        return node
+    if isinstance(node, list):
+        return [clone_keep(x, keep) for x in node]
+    if not isinstance(node, ast.AST):
+        return node
+    if isinstance(node, (ast.expr_context, ast.operator, ast.cmpop, ast.boolop, ast.unaryop)):
+        return node
+    new = type(node)()
+    for f in node._fields:
+        if hasattr(node, f):
+            setattr(new, f, clone_keep(getattr(node, f), keep))
+    for a in ("lineno", "col_offset", "end_lineno", "end_col_offset"):
+        if hasattr(node, a):
+            setattr(new, a, getattr(node, a))
+    return new
+
+
 PURE_CALLS = {"len", "abs", "isinstance", "min", "max", "int", "float", "bool", "str"}
 ITER_CALLS = {"any", "all", "sum", "sorted", "list", "tuple", "set", "enumerate", "zip", "reversed", "range", "iter", "next"}   # consume iterables, mutate nothing of ours
 JUMPS = (ast.Return, ast.Raise, ast.Continue, ast.Break)
@@ -92,14 +112,32 @@ class Helper:
         for k, d in zip(self.kwonly, a.kw_defaults):
             if d is not None:
                 self.defaults[k] = d
+        self.vararg = a.vararg.arg if a.vararg else None
+        self.kwarg = a.kwarg.arg if a.kwarg else None
         self.is_method = owner is not None and not static
+        self.classm = any(isinstance(d, ast.Name) and d.id == "classmethod" for d in fn.decorator_list)
+        self.relpath = None
 
     @staticmethod
     def eligible(fn):
-        if isinstance(fn, ast.AsyncFunctionDef) or fn.args.vararg or fn.args.kwarg:
+        if isinstance(fn, ast.AsyncFunctionDef):
             return False
+        for star in (fn.args.vararg, fn.args.kwarg):
+            # *pa / **kwa are expanded only for pass-through calls h(*pa, **kwa) (see _bind) and only if the helper treats
+            # them as read-only
+            if star is not None:
+                for n in _own(fn):
+                    if isinstance(n, ast.Name) and n.id == star.arg and not isinstance(n.ctx, ast.Load):
+                        return False
+                    if isinstance(n, ast.Call) and isinstance(n.func, ast.Attribute) and isinstance(n.func.value, ast.Name) and \
+                            n.func.value.id == star.arg and n.func.attr in ("pop", "update", "setdefault", "clear", "popitem", "append",
+                                                                           "extend", "insert", "remove", "sort", "reverse"):
+                        return False
+                    if isinstance(n, (ast.Subscript, ast.Attribute)) and not isinstance(n.ctx, ast.Load) and \
+                            isinstance(n.value, ast.Name) and n.value.id == star.arg:
+                        return False
         for d in fn.decorator_list:
-            if not (isinstance(d, ast.Name) and d.id == "staticmethod"):
+            if not (isinstance(d, ast.Name) and d.id in ("staticmethod", "classmethod")):
                 return False
         if fn.name.startswith("__") and fn.name.endswith("__"):
             return False
@@ -109,6 +147,8 @@ class Helper:
                 # try/with around a return changes what the return means; keep the analysis exact by not expanding
                 if isinstance(n, (ast.Try, ast.With)) and not any(isinstance(x, ast.Return) for x in ast.walk(n)):
                     continue
+                if isinstance(n, ast.Try) and not n.finalbody and not n.orelse:
+                    continue        # returns under try/except: expanded only where the continuation cannot raise (see _expand)
                 return False
             if isinstance(n, ast.Call):
                 f = n.func
@@ -170,22 +210,45 @@ def _stored(stmts):
 def _bind(helper, call, caller, at_stmt):
     """-> (prelude statements, {param: expr} substitutions, {local: new name}) or raise Fail"""
     args = list(call.args)
-    if any(isinstance(a, ast.Starred) for a in args) or any(k.arg is None for k in call.keywords):
+    keywords = list(call.keywords)
+    subst = {}
+    star_renames = {}
+    if helper.vararg:
+        if not (args and isinstance(args[-1], ast.Starred) and isinstance(args[-1].value, ast.Name)) or \
+                len(args) - 1 != len(helper.params) - (1 if helper.is_method else 0):
+            raise Fail("vararg helper not called as h(.., *name)")
+        star_renames[helper.vararg] = args[-1].value.id
+        args = args[:-1]
+    if helper.kwarg:
+        kk = [k for k in keywords if k.arg is None]
+        if len(kk) != 1 or not isinstance(kk[0].value, ast.Name):
+            raise Fail("kwarg helper not called as h(.., **name)")
+        star_renames[helper.kwarg] = kk[0].value.id
+        keywords = [k for k in keywords if k.arg is not None]
+    if any(isinstance(a, ast.Starred) for a in args) or any(k.arg is None for k in keywords):
         raise Fail("star args")
     params = list(helper.params)
-    subst = {}
     if helper.is_method:
         if not params:
             raise Fail("no self")
         recv = call.func.value if isinstance(call.func, ast.Attribute) else None
-        if not isinstance(recv, ast.Name):
+        if isinstance(recv, ast.Name):
+            if helper.classm and recv.id == "self":
+                recv = ast.copy_location(ast.Attribute(value=recv, attr="__class__", ctx=ast.Load()), recv)
+            subst[params[0]] = recv
+            self_prelude = None
+        elif _attr_chain(recv):
+            self_prelude = (params[0], recv)        # `self.framer.helper(..)`: the receiver is read once, first
+        else:
             raise Fail("receiver")
-        subst[params[0]] = recv
+        self_param = params[0]
         params = params[1:]
+    else:
+        self_prelude = None
     if len(args) > len(params):
         raise Fail("too many args")
     given = dict(zip(params, args))
-    for k in call.keywords:
+    for k in keywords:
         if k.arg in given or k.arg not in params + helper.kwonly:
             raise Fail("keyword")
         given[k.arg] = k.value
@@ -198,7 +261,14 @@ def _bind(helper, call, caller, at_stmt):
             given[p] = helper.defaults[p]
     stored = _stored(helper.body)
     used = _names_used(caller)
-    prelude, renames = [], {}
+    prelude, renames = [], dict(star_renames)
+    if self_prelude is not None:
+        name = self_param + "_h"
+        while name in used:
+            name += "h"
+        used.add(name)
+        renames[self_param] = name
+        prelude.append(ast.copy_location(ast.Assign(targets=[ast.Name(id=name, ctx=ast.Store())], value=clone(self_prelude[1])), at_stmt))
     for p in params + helper.kwonly:
         e = given[p]
         if _is_simple_arg(e) and p not in stored and not (isinstance(e, ast.Name) and e.id in stored):
@@ -229,6 +299,12 @@ def _bind(helper, call, caller, at_stmt):
         if isinstance(e, ast.Name) and e.id in stored and e.id not in renames:
             raise Fail("capture")
     return prelude, subst, renames
+
+
+def _attr_chain(e):
+    while isinstance(e, ast.Attribute):
+        e = e.value
+    return isinstance(e, ast.Name)
 
 
 def _live_after(caller, stmt, v):
@@ -290,6 +366,13 @@ def _nest(stmts):
                     s.body = _nest(list(s.body) + list(rest))
                     out.append(s)
                     return out
+                if sum(1 for r in rest for _ in ast.walk(r)) <= 60:
+                    # some path through the `if` falls through to the rest and some other returns: give every falling
+                    # path its own copy of the (small) rest, so that every return ends up in tail position
+                    s.body = _nest(list(s.body) if _ends_in_jump(s.body) else list(s.body) + clone(list(rest)))
+                    s.orelse = _nest(list(s.orelse) if _ends_in_jump(s.orelse) else list(s.orelse) + clone(list(rest)))
+                    out.append(s)
+                    return out
         out.append(s)
     return out
 
@@ -304,6 +387,9 @@ def _truth(e):
     if isinstance(e, ast.Constant):
         return bool(e.value)
     return None
+
+
+_TRY_OK = [False]
 
 
 def _expand(stmts, cont, tail, in_loop=False):
@@ -322,6 +408,25 @@ def _expand(stmts, cont, tail, in_loop=False):
                 raise Fail("return in loop else")
             s = clone(s)
             s.body = _expand(s.body, cont, False, True) or [ast.copy_location(ast.Pass(), s)]
+        elif isinstance(s, ast.Try) and _has_return([s]) and last and not in_loop and _TRY_OK[0] and not s.finalbody and not s.orelse:
+            # the try statement ends the helper: a return inside it becomes the (non-raising) continuation in the same place
+            s2 = clone(s)
+            s2.body = _expand(s.body, cont, True, in_loop) or [ast.copy_location(ast.Pass(), s)]
+            for h, h2 in zip(s.handlers, s2.handlers):
+                h2.body = _expand(h.body, cont, True, in_loop) or [ast.copy_location(ast.Pass(), s)]
+            out.append(s2)
+            return out
+        elif isinstance(s, ast.Try) and not s.finalbody and not _has_return(s.body) and not _has_return(s.orelse) and \
+                _has_return([s]):
+            # returns in the handlers only: a handler is not protected by its own try, so the continuation means the same there
+            # (it must not re-raise the handled exception by a bare raise of its own: checked on what cont produces)
+            s2 = clone(s)
+            for h, h2 in zip(s.handlers, s2.handlers):
+                h2.body = _expand(h.body, cont, last, in_loop) or [ast.copy_location(ast.Pass(), s)]
+                if any(isinstance(x, ast.Raise) and x.exc is None for b in h2.body for x in ast.walk(b)) and \
+                        not any(isinstance(x, ast.Raise) and x.exc is None for b in h.body for x in ast.walk(b)):
+                    raise Fail("continuation with a bare raise inside a handler")
+            s = s2
         elif isinstance(s, (ast.Try, ast.With)) and _has_return([s]):
             raise Fail("return under try/with")
         out.append(s)
@@ -382,9 +487,33 @@ def _inline_stmt0(st, helper, call, caller, mode, extra=None):
             if not tail and not term:
                 raise Fail("early return needs a jumping continuation")
             return clone(arm)
+    elif mode == "subst":
+        # st evaluates the helper call (extra) before anything else with an effect: every return of the helper continues
+        # with st, the call replaced by the returned value
+        def cont(v, tail, at, implicit=False):
+            if not tail:
+                raise Fail("early return in value helper")
+            v = v if v is not None else ast.Constant(value=None)
+            if isinstance(st, ast.AugAssign) and isinstance(st.op, (ast.Add, ast.Sub)) and isinstance(st.target, ast.Name) and \
+                    st.value is call and isinstance(v, ast.Constant) and type(v.value) is int and v.value == 0:
+                return []           # `n += 0` where the helper's other returns are numbers too
+            if isinstance(st, ast.AugAssign) and isinstance(st.op, (ast.Add, ast.Sub)) and st.value is call and \
+                    isinstance(v, ast.UnaryOp) and isinstance(v.op, ast.USub) and isinstance(v.operand, ast.Constant):
+                flipped = clone(st)                 # `n += -1` is written `n -= 1`
+                flipped.op = ast.Sub() if isinstance(st.op, ast.Add) else ast.Add()
+                flipped.value = v.operand
+                return [ast.fix_missing_locations(loc(flipped))]
+            new = _ReplaceNode(call, v).visit(clone_keep(st, call))
+            return [ast.fix_missing_locations(loc(new))]
     else:
         raise Fail(mode)
-    new = _expand(body, cont, True)
+    def plain(t):
+        return isinstance(t, ast.Name) or (isinstance(t, ast.Attribute) and isinstance(t.value, ast.Name))
+    _TRY_OK[0] = mode in ("return", "expr") or (mode == "assign" and isinstance(st, ast.Assign) and all(plain(t) for t in st.targets))
+    try:
+        new = _expand(body, cont, True)
+    finally:
+        _TRY_OK[0] = False
     return prelude + new
 
 
@@ -410,6 +539,19 @@ def _call_of(e, helpers, cls):
     if isinstance(f, ast.Attribute) and isinstance(f.value, ast.Name) and cls is not None:
         if f.value.id in ("self", "cls") or f.value.id == cls:
             # the class itself, then its bases defined in this module (a helper extracted into the common base class)
+            bases = helpers.get("__bases__", {})
+            definers = helpers.get("__definers__", {}).get(f.attr, set())
+            if f.value.id != cls:
+                # `self` may be an instance of a subclass: one that defines the name itself makes the call polymorphic
+                subs, grew = {cls}, True
+                while grew:
+                    grew = False
+                    for k, bs in bases.items():
+                        if k not in subs and any(b in subs for b in bs):
+                            subs.add(k)
+                            grew = True
+                if (subs - {cls}) & definers:
+                    return None
             seen, todo = set(), [cls]
             while todo:
                 c = todo.pop(0)
@@ -419,9 +561,25 @@ def _call_of(e, helpers, cls):
                 h = helpers.get((c, f.attr))
                 if h is not None:
                     return h
-                todo.extend(helpers.get("__bases__", {}).get(c, []))
+                if c in definers:
+                    return None     # the nearest definition is not a new helper
+                todo.extend(bases.get(c, []))
         elif (f.value.id, f.attr) in helpers and helpers[(f.value.id, f.attr)].static:
             return helpers[(f.value.id, f.attr)]
+    # a name that is new to the whole program and defined exactly once resolves to that definition whatever the receiver
+    uniq = helpers.get("__unique__")
+    if uniq:
+        if isinstance(f, ast.Name):
+            h = uniq.get(f.id)
+            if h is not None and h.owner is None:
+                return h
+        elif isinstance(f, ast.Attribute) and _attr_chain(f.value):
+            h = uniq.get(f.attr)
+            if h is None:
+                return None
+            if h.is_method and not h.classm and isinstance(f.value, ast.Name) and f.value.id[:1].isupper():
+                return None         # Class.method(obj, ..): unbound call, not expanded
+            return h
     return None
 
 
@@ -489,6 +647,13 @@ def _hoist(st, helpers, cls, caller, stats):
             return None
         if len(h.body) == 1 and isinstance(h.body[0], ast.Return):
             return None             # single expression helper: the expression inliner's business
+        if sum(1 for x in _own(h.body) if isinstance(x, ast.Return)) > 1:
+            try:
+                rep = _inline_stmt(st, h, c, caller, "subst")
+                stats["inlined"] = stats.get("inlined", 0) + 1
+                return rep or [ast.copy_location(ast.Pass(), st)]
+            except Fail as ex:
+                stats.setdefault("failed", []).append(str(ex))
         k = stats["hoisted"] = stats.get("hoisted", 0) + 1
         tmp = "_h%d" % k
         asg = ast.copy_location(ast.Assign(targets=[ast.Name(id=tmp, ctx=ast.Store())], value=c), st)
@@ -521,6 +686,8 @@ def _rewrite_block(stmts, helpers, cls, caller, stats):
                 rep = _inline_stmt(st, _call_of(st.value, helpers, cls), st.value, caller, "assign")
             elif isinstance(st, ast.Return) and st.value is not None and _call_of(st.value, helpers, cls):
                 rep = _inline_stmt(st, _call_of(st.value, helpers, cls), st.value, caller, "return")
+            elif isinstance(st, ast.AugAssign) and isinstance(st.target, ast.Name) and _call_of(st.value, helpers, cls):
+                rep = _inline_stmt(st, _call_of(st.value, helpers, cls), st.value, caller, "subst")
             elif isinstance(st, ast.If):
                 t, neg = st.test, False
                 if isinstance(t, ast.UnaryOp) and isinstance(t.op, ast.Not):
@@ -540,6 +707,84 @@ def _rewrite_block(stmts, helpers, cls, caller, stats):
     return out or stmts
 
 
+NEW_UNIQUE = {}     # name -> Helper: functions/methods new to the whole program (absent from the reference under any name),
+                    # defined exactly once; filled by prepare_program() before the modules are normalised
+
+
+def import_map(tree):
+    """module-level name -> what the import statement binds it to"""
+    out = {}
+    for n in ast.walk(tree):
+        if isinstance(n, ast.Import):
+            for a in n.names:
+                out[a.asname or a.name.split(".")[0]] = ("import", a.name if a.asname else a.name.split(".")[0])
+        elif isinstance(n, ast.ImportFrom):
+            for a in n.names:
+                out[a.asname or a.name] = ("from", n.level, n.module, a.name)
+    return out
+
+
+_BUILTIN_ATTRS = set()
+for _t in (str, bytes, bytearray, list, dict, set, frozenset, tuple, int, float, object, type):
+    _BUILTIN_ATTRS |= set(dir(_t))
+import collections as _c
+for _t in (_c.deque, _c.OrderedDict):
+    _BUILTIN_ATTRS |= set(dir(_t))
+
+
+def _free_names(fn):
+    import builtins
+    bound = {a.arg for a in fn.args.posonlyargs + fn.args.args + fn.args.kwonlyargs}
+    loads = set()
+    for n in _own(fn):
+        if isinstance(n, ast.Name):
+            (loads if isinstance(n.ctx, ast.Load) else bound).add(n.id)
+        elif isinstance(n, ast.ExceptHandler) and n.name:
+            bound.add(n.name)
+        elif isinstance(n, (ast.ListComp, ast.SetComp, ast.DictComp, ast.GeneratorExp)):
+            for g in n.generators:
+                for x in ast.walk(g.target):
+                    if isinstance(x, ast.Name):
+                        bound.add(x.id)
+    return {g for g in loads - bound if not hasattr(builtins, g)}
+
+
+def prepare_program(changed, ref_functions, known):
+    """changed: {relpath: normal-form tree} of the modules that differ from the reference"""
+    NEW_UNIQUE.clear()
+    cands = {}
+    for rel, tree in changed.items():
+        ref = ref_functions.get(rel, {})
+        for n in tree.body:
+            items = []
+            if isinstance(n, ast.FunctionDef):
+                items = [(None, n)]
+            elif isinstance(n, ast.ClassDef):
+                items = [(n.name, m) for m in n.body if isinstance(m, ast.FunctionDef)]
+            for cls, fn in items:
+                q = (cls + "." if cls else "") + fn.name
+                if q in ref or fn.name in known:
+                    continue
+                cands.setdefault(fn.name, []).append((rel, cls, fn, tree))
+    for name, lst in cands.items():
+        if len(lst) != 1 or name in _BUILTIN_ATTRS:
+            continue
+        rel, cls, fn, tree = lst[0]
+        if not Helper.eligible(fn):
+            continue
+        static = any(isinstance(d, ast.Name) and d.id == "staticmethod" for d in fn.decorator_list)
+        h = Helper(fn, cls, static)
+        h.relpath = rel
+        h.free = _free_names(fn)
+        h.imports = import_map(tree)
+        NEW_UNIQUE[name] = h
+
+
+def foreign_folded():
+    """[(relpath, class or None, name)] of program-wide helpers that were expanded somewhere"""
+    return [(h.relpath, h.owner, n) for n, h in NEW_UNIQUE.items() if getattr(h, "used", 0) > 0]
+
+
 def inline_new_helpers(tree, ref_mod, known_names):
     """ref_mod: {qualname: ...} of this module in the reference; known_names: every function/method name in the reference"""
     helpers = {}
@@ -557,16 +802,27 @@ def inline_new_helpers(tree, ref_mod, known_names):
     bases = {}
     collect(tree.body, None)
     stats = {"helpers": sorted("%s.%s" % (c, f) if c else f for c, f in helpers)}
-    if not helpers:
+    if not helpers and not NEW_UNIQUE:
         return stats
-    # a helper that a subclass in this module overrides is polymorphic: leave it alone
-    for (c, f) in list(helpers):
-        if c is None:
-            continue
-        for n in tree.body:
-            if isinstance(n, ast.ClassDef) and n.name != c and any(isinstance(m, ast.FunctionDef) and m.name == f for m in n.body):
-                helpers.pop((c, f), None)
+    # a method name that several classes of this module define is polymorphic: `self.f()` written in class C means C's nearest
+    # definition only if no subclass of C overrides f (see _call_of)
+    definers = {}
+    for n in tree.body:
+        if isinstance(n, ast.ClassDef):
+            for m in n.body:
+                if isinstance(m, ast.FunctionDef):
+                    definers.setdefault(m.name, set()).add(n.name)
     helpers["__bases__"] = bases
+    helpers["__definers__"] = definers
+    uniq = {}
+    for k, h in list(helpers.items()):
+        if isinstance(h, Helper) and isinstance(k, tuple) and k[1] in NEW_UNIQUE:
+            uniq[k[1]] = h
+    here = import_map(tree)
+    for f, h in NEW_UNIQUE.items():
+        if f not in uniq and h.relpath != getattr(tree, "_relpath", None) and all(here.get(g) == h.imports.get(g) and g in here for g in h.free):
+            uniq[f] = h
+    helpers["__unique__"] = uniq
 
     def visit(body, cls):
         for n in body:
@@ -585,6 +841,8 @@ def inline_new_helpers(tree, ref_mod, known_names):
     # a helper with no call left in the module has been folded into its callers: the copy that remains is dead as far as this
     # module is concerned; who-may-write rules attribute its effects to the callers (the expanded copies), not to it
     bases = helpers.pop("__bases__", {})
+    helpers.pop("__unique__", None)
+    helpers.pop("__definers__", None)
     remaining = {}
     for n in ast.walk(tree):
         if isinstance(n, ast.Call):
@@ -629,6 +887,107 @@ def _pure(e):
     return True
 
 
+_PROGRAM = {"files": None, "stable": None}
+
+
+def stable_attrs():
+    """attribute names that the program binds only in constructors (`obj.a = ..` appears only inside functions called __init__,
+    no setattr/delattr with that constant name, no class-level rebinding elsewhere): once an object is built, `obj.a` denotes the
+    same object for good, so reading it again later yields what an earlier read yielded"""
+    if _PROGRAM["stable"] is not None:
+        return _PROGRAM["stable"]
+    where = {}
+    files = _PROGRAM["files"] or {}
+    for rel, text in files.items():
+        if not text or text == "\0DELETED":
+            continue
+        try:
+            tree = ast.parse(text)
+        except (SyntaxError, RecursionError, ValueError):
+            continue
+        stack = [(tree, "<module>")]
+        while stack:
+            node, fn = stack.pop()
+            for c in ast.iter_child_nodes(node):
+                f = c.name if isinstance(c, (ast.FunctionDef, ast.AsyncFunctionDef)) else fn
+                if isinstance(c, ast.Attribute) and isinstance(c.ctx, (ast.Store, ast.Del)):
+                    where.setdefault(c.attr, set()).add(fn)
+                elif isinstance(c, ast.Call) and isinstance(c.func, ast.Name) and c.func.id in ("setattr", "delattr") and len(c.args) >= 2:
+                    if isinstance(c.args[1], ast.Constant) and isinstance(c.args[1].value, str):
+                        where.setdefault(c.args[1].value, set()).add(fn)
+                    else:
+                        where.setdefault("*", set()).add(fn)
+                stack.append((c, f))
+    dyn = "*" in where and False    # setattr with computed names exists in data containers (odict/Data/Share); those are not
+    #                                 attribute names of the framework objects the rules talk about
+    _PROGRAM["stable"] = {a for a, fs in where.items() if fs <= {"__init__"}}
+    return _PROGRAM["stable"]
+
+
+def _stable_expr(e):
+    """`self.a` / `self.a.b` with every attribute constructor-only"""
+    if not isinstance(e, ast.Attribute):
+        return False
+    st = stable_attrs()
+    while isinstance(e, ast.Attribute):
+        if e.attr not in st:
+            return False
+        e = e.value
+    return isinstance(e, ast.Name) and e.id == "self"
+
+
+_PURE_FUNCS = set()       # module-level functions of the module being normalised that write nothing but their own locals
+
+
+def pure_functions(tree):
+    """names of module-level functions that cannot change anything a caller can see: no attribute/subscript store or delete,
+    no global/nonlocal, no yield, calls only to PURE_CALLS/ITER_CALLS, math.* and to other such functions (least fixpoint from
+    the optimistic set); a module-level name rebound anywhere is excluded"""
+    if not isinstance(tree, ast.Module):
+        return set()
+    fns = {n.name: n for n in tree.body if isinstance(n, ast.FunctionDef)}
+    stores = {}
+    for n in ast.walk(tree):
+        if isinstance(n, ast.Name) and isinstance(n.ctx, (ast.Store, ast.Del)):
+            stores[n.id] = stores.get(n.id, 0) + 1
+        elif isinstance(n, ast.arg):
+            stores[n.arg] = stores.get(n.arg, 0) + 1
+    cand = {k for k in fns if not stores.get(k)}
+    changed = True
+    while changed:
+        changed = False
+        for k in sorted(cand):
+            ok = True
+            for x in ast.walk(fns[k]):
+                if isinstance(x, (ast.Attribute, ast.Subscript)) and isinstance(x.ctx, (ast.Store, ast.Del)):
+                    ok = False
+                elif isinstance(x, (ast.Global, ast.Nonlocal, ast.Yield, ast.YieldFrom, ast.Await, ast.AugAssign)) and \
+                        not (isinstance(x, ast.AugAssign) and isinstance(x.target, ast.Name)):
+                    ok = False
+                elif isinstance(x, ast.Call):
+                    f = x.func
+                    if isinstance(f, ast.Name) and (f.id in PURE_CALLS | ITER_CALLS or f.id in cand):
+                        continue
+                    if isinstance(f, ast.Attribute) and isinstance(f.value, ast.Name) and f.value.id == "math":
+                        continue
+                    if isinstance(f, ast.Attribute) and isinstance(f.value, ast.Constant):
+                        continue            # "..".format(..) and the like
+                    if isinstance(f, ast.Name) and f.id not in fns and isinstance(getattr(__builtins__, "get", lambda k: getattr(__builtins__, k, None))(f.id), type) \
+                            and issubclass(getattr(__builtins__, "get", lambda k: getattr(__builtins__, k, None))(f.id), BaseException):
+                        continue            # building an exception to raise
+                    ok = False
+                if not ok:
+                    break
+            if not ok:
+                cand.discard(k)
+                changed = True
+    for st in tree.body:            # `left = ccw`: a module-level alias, bound once, of such a function
+        if isinstance(st, ast.Assign) and len(st.targets) == 1 and isinstance(st.targets[0], ast.Name) and \
+                isinstance(st.value, ast.Name) and st.value.id in cand and stores.get(st.targets[0].id) == 1:
+            cand.add(st.targets[0].id)
+    return cand
+
+
 def substitute_new_temps(fn, ref_locals):
     """N4 on one function; returns the list of substituted names"""
     from .normalize import scope_info
@@ -641,6 +1000,14 @@ def substitute_new_temps(fn, ref_locals):
     if not new:
         return []
     done = []
+    progress = True
+    while progress:
+        progress = False
+        for v in list(new):
+            if _copy_rename(fn, v) or _list_fusion(fn, v):
+                done.append(v)
+                new.remove(v)
+                progress = True
     for v in new:
         stores = [n for n in _own(fn) if isinstance(n, ast.Name) and n.id == v and isinstance(n.ctx, (ast.Store, ast.Del))]
         loads = [n for n in _own(fn) if isinstance(n, ast.Name) and n.id == v and isinstance(n.ctx, ast.Load)]
@@ -651,6 +1018,15 @@ def substitute_new_temps(fn, ref_locals):
             continue
         block, idx, asg = d
         e = asg.value
+        if fn.name != "__init__" and _stable_expr(e):
+            twin = _stable_twin(fn, asg, v, e, refn)
+            if twin:
+                _rename_local(fn, v, twin)
+                del block[idx]
+                if not block:
+                    block.append(ast.copy_location(ast.Pass(), asg))
+                done.append(v)
+                continue
         if _pure(e):
             if _safe_everywhere(fn, asg, v, e, loads):
                 _replace_loads(fn, v, e)
@@ -673,6 +1049,173 @@ def substitute_new_temps(fn, ref_locals):
                 del block[idx]
                 done.append(v)
     return done
+
+
+def _simple_statements(fn):
+    """(block, index, statement) of every statement in fn (nested blocks included, nested defs not)"""
+    out = []
+
+    def rec(block):
+        for i, st in enumerate(block):
+            out.append((block, i, st))
+            if isinstance(st, (ast.FunctionDef, ast.AsyncFunctionDef, ast.ClassDef)):
+                continue
+            for fld in ("body", "orelse", "finalbody"):
+                b = getattr(st, fld, None)
+                if isinstance(b, list):
+                    rec(b)
+            for h in getattr(st, "handlers", []) or []:
+                rec(h.body)
+    rec(fn.body)
+    return out
+
+
+def _mentions(g, node, name):
+    for x in g.walk_node(node):
+        if isinstance(x, ast.Name) and x.id == name:
+            return True
+        if isinstance(x, ast.ExceptHandler) and x.name == name:
+            return True
+    return getattr(node.ast, "name", None) == name and node.kind == "except"
+
+
+def _copy_rename(fn, v):
+    """`x = v` with v a new temporary that is dead from there on and x not mentioned on any path up to there: v was x all along"""
+    from .cfg import CFG
+    hits = [(b, i, st) for b, i, st in _simple_statements(fn)
+            if isinstance(st, ast.Assign) and len(st.targets) == 1 and isinstance(st.targets[0], ast.Name)
+            and isinstance(st.value, ast.Name) and st.value.id == v and st.targets[0].id != v]
+    if len(hits) != 1:
+        return False
+    block, idx, st = hits[0]
+    x = st.targets[0].id
+    for n in ast.walk(fn):          # closures / comprehension scopes: leave alone
+        if isinstance(n, (ast.Lambda, ast.ListComp, ast.SetComp, ast.DictComp, ast.GeneratorExp)) and \
+                any(isinstance(m, ast.Name) and m.id in (v, x) for m in ast.walk(n)):
+            return False
+    if x in {a.arg for a in fn.args.posonlyargs + fn.args.args + fn.args.kwonlyargs}:
+        return False
+    try:
+        g = CFG(fn)
+    except Exception:
+        return False
+    cn = [n for n in g.nodes if n.ast is st]
+    if len(cn) != 1:
+        return False
+    c = cn[0]
+    after = g.reachable([b for b, _ in g.succ.get(c.id, [])])
+    if c.id in after:
+        return False                # the copy sits in a loop
+    for n in g.nodes:
+        if n.id == c.id:
+            continue
+        if _mentions(g, n, v) and n.id in after:
+            return False
+        if _mentions(g, n, x) and n.id not in after:
+            return False            # x has a life of its own before the copy
+    _rename_local(fn, v, x)
+    del block[idx]
+    if not block:
+        block.append(ast.copy_location(ast.Pass(), st))
+    return True
+
+
+def _list_fusion(fn, t):
+    """`t = []; ...t.append(a)...; L.extend(t)` with t a new temporary used for nothing else and L untouched in between:
+    the elements go to L directly, in the same order"""
+    from .cfg import CFG
+    sts = _simple_statements(fn)
+    defs, adds, final = [], [], []
+    for b, i, st in sts:
+        if isinstance(st, (ast.If, ast.While, ast.For, ast.Try, ast.With)):
+            # compound statement: only its header expressions count here
+            heads = [getattr(st, "test", None), getattr(st, "iter", None), getattr(st, "target", None)] + \
+                [it.context_expr for it in getattr(st, "items", [])]
+            if any(h is not None and any(isinstance(m, ast.Name) and m.id == t for m in ast.walk(h)) for h in heads):
+                return False
+            continue
+        names = [m for m in ast.walk(st) if isinstance(m, ast.Name) and m.id == t]
+        if not names:
+            continue
+        if isinstance(st, ast.Assign) and len(st.targets) == 1 and st.targets[0] is names[0] and len(names) == 1 and \
+                isinstance(st.value, ast.List) and not st.value.elts:
+            defs.append((b, i, st))
+        elif isinstance(st, ast.Expr) and isinstance(st.value, ast.Call) and isinstance(st.value.func, ast.Attribute) and \
+                not st.value.keywords and len(st.value.args) == 1:
+            f = st.value.func
+            if f.value is names[0] and len(names) == 1 and f.attr in ("append", "extend"):
+                adds.append((b, i, st))
+            elif isinstance(f.value, ast.Name) and f.attr == "extend" and st.value.args[0] is names[0] and len(names) == 1:
+                final.append((b, i, st))
+            else:
+                return False
+        else:
+            return False
+    if len(defs) != 1 or len(final) != 1:
+        return False
+    L = final[0][2].value.func.value.id
+    if L == t or _try_context(fn, defs[0][2]) != _try_context(fn, final[0][2]):
+        return False
+    if any(_try_context(fn, a[2]) != _try_context(fn, defs[0][2]) for a in adds):
+        return False
+    try:
+        g = CFG(fn)
+    except Exception:
+        return False
+    dn = [n for n in g.nodes if n.ast is defs[0][2]]
+    fnl = [n for n in g.nodes if n.ast is final[0][2]]
+    if len(dn) != 1 or len(fnl) != 1:
+        return False
+    d, f = dn[0], fnl[0]
+    if f.id in g.reachable(g.entry.id, removed_nodes=[d.id]):
+        return False                # the binding does not dominate the extend
+    fwd = g.reachable([b for b, _ in g.succ.get(d.id, [])], removed_nodes=[f.id])
+    if d.id in fwd:
+        return False                # in a loop that does not pass the extend
+    for n in g.nodes:
+        if n.id in fwd and n.id != f.id and _mentions(g, n, L):
+            return False            # L is read or written while t is being filled
+    after = g.reachable([b for b, _ in g.succ.get(f.id, [])])
+    for n in g.nodes:
+        if n.id in after and n.id != d.id and _mentions(g, n, t) and d.id not in after:
+            return False
+    for b, i, st in adds:
+        st.value.func.value.id = L
+    for b, i, st in sorted([defs[0], final[0]], key=lambda z: -z[1]) if defs[0][0] is final[0][0] else [defs[0], final[0]]:
+        del b[b.index(st)]
+        if not b:
+            b.append(ast.copy_location(ast.Pass(), st))
+    return True
+
+
+def _stable_twin(fn, asg, v, e, refn):
+    """a local of the reference function whose every binding is `x = <e>` (e a constructor-only attribute of self), one of which
+    dominates asg: v is then just another name for x"""
+    from .cfg import CFG
+    want = ast.dump(e)
+    cands = {}
+    for n in _own(fn):
+        if isinstance(n, ast.Name) and isinstance(n.ctx, (ast.Store, ast.Del)) and n.id != v and n.id in refn:
+            cands.setdefault(n.id, []).append(n)
+    for x, stores in sorted(cands.items()):
+        defs = [_find_assign(fn.body, st) for st in stores]
+        if any(d is None or ast.dump(d[2].value) != want for d in defs):
+            continue
+        try:
+            g = CFG(fn)
+        except Exception:
+            return None
+        me = [n.id for n in g.nodes if n.ast is asg]
+        theirs = [n.id for n in g.nodes if any(n.ast is d[2] for d in defs)]
+        if len(me) == 1 and theirs and me[0] not in g.reachable(g.entry.id, removed_nodes=theirs):
+            return x
+    return None
+
+
+def _rename_local(fn, old, new):
+    for n in _own(fn):
+        if isinstance(n, ast.Name) and n.id == old:
+            n.id = new
 
 
 def _find_assign(body, store):
@@ -805,6 +1348,12 @@ def _safe_everywhere(fn, asg, v, e, loads):
     except Exception:
         return False
     names, attrs = _reads(e)
+    if _stable_expr(e) and fn.name != "__init__":
+        attrs = False           # nothing but a constructor rebinds these attributes
+    attr_read = {x.attr for x in ast.walk(e) if isinstance(x, ast.Attribute)}
+    sub_read = any(isinstance(x, ast.Subscript) for x in ast.walk(e))
+    local_names = {x.id for x in _own(fn) if isinstance(x, ast.Name) and isinstance(x.ctx, (ast.Store, ast.Del))} | \
+        {a.arg for a in fn.args.posonlyargs + fn.args.args + fn.args.kwonlyargs}
     dn = [n for n in g.nodes if n.ast is asg]
     if len(dn) != 1:
         return False
@@ -829,10 +1378,17 @@ def _safe_everywhere(fn, asg, v, e, loads):
         for x in g.walk_node(n):
             if isinstance(x, ast.Name) and isinstance(x.ctx, (ast.Store, ast.Del)) and x.id in names:
                 kills = True
-            elif attrs and isinstance(x, ast.Call) and not (isinstance(x.func, ast.Name) and x.func.id in PURE_CALLS | ITER_CALLS):
+            elif attrs and isinstance(x, ast.Call) and not (isinstance(x.func, ast.Name) and
+                                                            (x.func.id in PURE_CALLS | ITER_CALLS or
+                                                             (x.func.id in _PURE_FUNCS and x.func.id not in local_names))):
                 kills = True
-            elif attrs and isinstance(x, (ast.Attribute, ast.Subscript)) and isinstance(x.ctx, (ast.Store, ast.Del)):
-                kills = True
+            elif attrs and isinstance(x, ast.Attribute) and isinstance(x.ctx, (ast.Store, ast.Del)):
+                # a store to attribute .a changes what e reads only if e reads an attribute of that name
+                if x.attr in attr_read:
+                    kills = True
+            elif attrs and isinstance(x, ast.Subscript) and isinstance(x.ctx, (ast.Store, ast.Del)):
+                if sub_read:
+                    kills = True
             elif isinstance(x, (ast.Yield, ast.YieldFrom)) and attrs:
                 kills = True
         if kills:
